@@ -43,6 +43,15 @@ theorem cursor_after_handling :
 theorem single_cursor_write :
     RelayerLoop.cursorWriteSteps = [.dbPut] ∧ RelayerLoop.cursorWriteSitesInStart = 1 := by decide
 
+/-- the log query of an iteration is the DIRECT `ethclient` call on `context.Background()` (no deadline: a late
+    answer is an answer; no wrapper that could turn "no answer" into "no logs"), its error is the one the
+    `continue` branch tests, and its logs are what the event loop ranges over: the cursor write is reachable
+    only through a provider answer to the query of that very iteration. -/
+theorem loop_query_direct :
+    RelayerLoop.queryCallee = "ethClient.FilterLogs" ∧ RelayerLoop.queryContext = "context.Background()" ∧
+    RelayerLoop.queryLhs = "ethLogs, err" ∧ RelayerLoop.collectOver = "ethLogs" ∧
+    RelayerLoop.ethClientBinding = "ethClient, err := SetupWebsocketEthClient(sub.EthProvider)" := by decide
+
 /-- the arithmetic and the operands: `endingBlock = newHead.Number − trailingBlocks`, skipped when negative;
     a zero cursor is set to `endingBlock`; the query is `[lastProcessedBlock, endingBlock]`; the value written
     and assigned is `endingBlock + 1`. -/
